@@ -37,6 +37,7 @@ func (x *Exec) script(q *Query, quant bool, z3 bool, model bool) string {
 	b.WriteString(x.w.Prelude(quant))
 	b.WriteString(codecPrelude(quant))
 	b.WriteString(derPrelude(quant))
+	b.WriteString(fmtPrelude(quant))
 	b.WriteString(cryptoPrelude())
 	if quant {
 		b.WriteString(cryptoPreludeQ())
